@@ -185,4 +185,17 @@ pub proof fn lemma_align_up(size: int, align: int)
     }
 }
 
+// ---- field templates of CompInfo::codegen's tail (statements extracted by R18)
+// quote! { pub _bindgen_opaque_blob: #ty , }   /   quote! { pub bindgen_union_field: #ty, }
+#[verifier::external_body] pub fn q_blob_field(ty: &Tok) -> (r: Tok) ensures field_ty(r) == *ty { unimplemented!() }
+#[verifier::external_body] pub fn q_union_field(ty: &Tok) -> (r: Tok) ensures field_ty(r) == *ty { unimplemented!() }
+// quote! { u64 } .. quote! { u8 }: a primitive of the given width (size == alignment on the targets bindgen supports)
+#[verifier::external_body] pub fn q_uint(bytes: usize) -> (r: Tok) ensures ty_size(r) == bytes, ty_align(r) == bytes { unimplemented!() }
+// quote! { pub _bindgen_align: [#align_ty; 0], }: a zero-length array field, aligned like its element
+pub uninterp spec fn zero_len_array_of(t: Tok) -> Option<Tok>;
+#[verifier::external_body] pub fn q_align_field(elem: &Tok) -> (r: Tok) ensures zero_len_array_of(r) == Some(*elem) { unimplemented!() }
+// #[repr(align(#explicit))]
+pub uninterp spec fn repr_align_of(t: Tok) -> Option<int>;
+#[verifier::external_body] pub fn q_repr_align(n: usize) -> (r: Tok) ensures repr_align_of(r) == Some(n as int) { unimplemented!() }
+
 } // verus!
